@@ -1007,6 +1007,7 @@ pub fn main(args: &Args) -> i32 {
     let report = Report::new("C28", args.tier, args.seed, "model_checking");
     let depth = args.tier.pick(3usize, 4usize);
     let states: Mutex<HashSet<u64>> = Mutex::new(HashSet::new());
+    let sink = crate::osrv::VioSink::default();
     let (transitions, histories, dead) = (AtomicU64::new(0), AtomicU64::new(0), AtomicU64::new(0));
     let mut bank = vec![];
     for k in 0..4 {
@@ -1040,7 +1041,7 @@ pub fn main(args: &Args) -> i32 {
                         }));
                     }
                     for v in vs {
-                        report.violation(v);
+                        sink.push(&report, v);
                     }
                 }
             }
@@ -1052,6 +1053,8 @@ pub fn main(args: &Args) -> i32 {
             "properties": (0..MODES.len()).map(|j| json!({"name": MODES[j].2, "type": ty_of(k, j).sig(), "access": access_str(j), "emits_changed_signal": MODES[j].1})).collect::<Vec<_>>(),
         }));
     }
+    report.set("violating_transitions", json!(sink.total()));
+    report.set("violating_transitions_by_identity", sink.summary());
     report.set("bank", json!(bank));
     report.set("history_depth", json!(depth));
     report.set("states", json!(states.lock().unwrap().len()));
